@@ -482,6 +482,13 @@ func runC07(c *eng.Ctx) {
 	// ---- R7 Filter atomicity (shared with C05.R5)
 	r7 := c.Rule("C07.R7", "B+A", "TaskQueue.Filter scans, decides and publishes inside one withLock section (a task appended during the combination is not overwritten by a stale snapshot)", 2)
 	runC05R5(c, r7)
+
+	// ---- R8 (shared with C04.R5 / C06.R9): the merged tasks are deleted from the queue when they are combined, so
+	// the combined contexts must be stored in the surviving task before the hook runs - a failed run is retried from it
+	r8 := c.Rule("C07.R8", "B:must-pass", "after combining, t.UpdateMetadata(hookMeta) with the combined contexts is passed on every path to the hook run (the retried task still carries every merged context)", 1)
+	if f := r8.NeedFunc(pkgOp + ".(*ShellOperator).taskHandleHookRun"); f != nil {
+		combinedWrittenBack(c, r8, f, true)
+	}
 }
 
 func mentionsGroup(info *types.Info, f *eng.Func, e ast.Expr) bool {
